@@ -266,7 +266,14 @@ where
             } else if let Some(d) = &sched.diverged {
                 Outcome::Diverged(d.clone())
             } else {
-                Outcome::Panic(first.unwrap_or(msg))
+                let m = first.unwrap_or(msg);
+                // a panic raised in the harness's own sources is a harness error, never a verdict
+                if let Some(loc) = m.rsplit(" @ ").next() {
+                    if loc.starts_with("simt/") || loc.starts_with("simcore/") || loc.starts_with("verif-rt/") {
+                        simcore::harness_error(&format!("the harness itself panicked inside an execution: {m}"));
+                    }
+                }
+                Outcome::Panic(m)
             }
         }
     };
